@@ -18,8 +18,9 @@ P = "C18"
 
 def generate(rng, tier, focus):
     seeds = []
-    for k in range(rng.randint(1, 2)):
-        n = rng.randint(1, 9)
+    big = rng.random() < 0.02
+    for k in range(rng.randint(1, 2) if not big else 1):
+        n = rng.randint(1, 9) if not big else rng.randint(260, 330)     # a residue of more than 256 atoms (a polymer kept whole)
         n_res = rng.choice([1, 1, 2, 3])
         spec = gen.mol_spec(rng, "M%d" % k, n, n_res=n_res, p_hydrogen=0.2, velocities=rng.random() < 0.5,
                             resname="S%d" % k)
@@ -27,7 +28,7 @@ def generate(rng, tier, focus):
         if "velocities" in spec:
             spec["velocities"] = [[round(x, 4) for x in v] for v in spec["velocities"]]
         seeds.append(spec)
-    n_ops = rng.randint(6, 40)
+    n_ops = rng.randint(6, 40) if not big else rng.randint(6, 14)
     ops = []
     kinds = ["copy", "copy", "deep_copy", "move", "move", "move_to", "rotate", "rotate", "set_pos", "set_vel", "set_ids",
              "set_resids", "set_names", "view", "view_assign", "view_assign", "system", "alignment", "atom_copy",
